@@ -36,7 +36,7 @@ fn opt_text(class: &str, r: &mut Rng) -> (String, i32) {
             (t, v)
         }
         "overflow" => (r.pick(&["2147483648", "-2147483649", "1e3", "0x10", "5 "]).to_string(), 0),
-        "keyword" => (r.pick(&["grayscale", "two-sided-long-edge", "TRUE", "", "iso_a4_210x297mm", "naïve", "1-3,7", "a b"]).to_string(), 0),
+        "keyword" => (r.pick(&["grayscale", "two-sided-long-edge", "1-5", "2-2", "10-20", "600dpi", "3x4", "TRUE", "", "iso_a4_210x297mm", "naïve", "1-3,7", "a b"]).to_string(), 0),
         "eqinside" => (r.pick(&["a=b", "=", "x==y"]).to_string(), 0),
         _ => (String::new(), 0),
     }
@@ -128,8 +128,10 @@ pub fn run(a: &Args) {
             continue;
         }
         let mut r = Rng::new(seed.wrapping_mul(69621).wrapping_add(ci as u64));
+        // variant choices are keyed on a hash of the case index: a plain modulus aliases with the stride that samples the cases
+        let vi = crate::mix(ci);
         let prog = c["prog"].as_str().unwrap();
-        let target = match ci % 3 {
+        let target = match vi % 3 {
             0 => format!("ipp://127.0.0.1:{}/printers/q{}", server.port, ci),
             1 => format!("http://localhost:{}/ipp/print?x={}", server.port, ci),
             _ => format!("ipp://user:pw@127.0.0.1:{}/ipp", server.port),
@@ -137,14 +139,14 @@ pub fn run(a: &Args) {
         let ndocs = c["n"].as_u64().unwrap() as usize;
         let missing = c["missing"].as_u64().unwrap() as usize;
         let jobid: i32 = *r.pick(&[5i32, 1, 2147483647, 77, 0]);
-        let user: Option<String> = if ci % 4 == 3 { None } else { Some(r.pick(&["alice", "bob smith", "üser"]).to_string()) };
+        let user: Option<String> = if vi % 4 == 3 { None } else { Some(r.pick(&["alice", "bob smith", "üser"]).to_string()) };
         let mut argv: Vec<String> = vec![target.clone()];
         let mut docs: Vec<Vec<u8>> = vec![];
         let mut paths = vec![];
         for d in 1..=ndocs {
-            let size = [0usize, 1 + r.below(3000) as usize, 70_000 + r.below(90_000) as usize, 17][(ci + d) % 4];
+            let size = [0usize, 1 + r.below(3000) as usize, 70_000 + r.below(90_000) as usize, 17][(vi + d) % 4];
             // documents of one session are pairwise different (so that their order is observable)
-            let doc = pattern(if size == 0 { 0 } else { size + d }, (ci * 8 + d) as u32);
+            let doc = pattern(if size == 0 { 0 } else { size + d }, (vi * 8 + d) as u32);
             let path = format!("{tmp}/x-{ci}-{d}.bin");
             if d != missing {
                 std::fs::write(&path, &doc).unwrap();
@@ -155,15 +157,15 @@ pub fn run(a: &Args) {
         }
         let mut attrs = vec![];
         for k in 0..c["nattrs"].as_u64().unwrap() as usize {
-            let an = ["printer-state", "all", "media-supported", "operations-supported"][(ci + k) % 4];
+            let an = ["printer-state", "all", "media-supported", "operations-supported"][(vi + k) % 4];
             argv.push(an.to_string());
             attrs.push(json!({"s": hexs(an.as_bytes())}));
         }
         let mut opts_j = vec![];
         let keys = ["copies", "sides", "print-color-mode", "media", "x-opt"];
         for oi in 0..c["nopts"].as_u64().unwrap() as usize {
-            let class = OPT_CLASSES[(ci / 3 + oi * 3) % OPT_CLASSES.len()];
-            let key = keys[(ci + oi * 2) % keys.len()];
+            let class = OPT_CLASSES[(vi / 3 + oi * 3) % OPT_CLASSES.len()];
+            let key = keys[(vi + oi * 2) % keys.len()];
             let (text, ival) = opt_text(class, &mut r);
             argv.push(if class == "noeq" { format!("{}-novalue", key) } else { format!("{}={}", key, text) });
             let trimmed: Option<i32> = text.trim().parse().ok();
@@ -180,7 +182,7 @@ pub fn run(a: &Args) {
         }
         {
             let mut g = cur.lock().unwrap();
-            *g = (c.clone(), 0, (ci as u32).wrapping_add(seed as u32), jobid);
+            *g = (c.clone(), 0, (vi as u32).wrapping_add(seed as u32), jobid);
         }
         server.take_seen();
         let side = json!({"prog": prog, "argv": argv, "user_env": user, "case": c});
